@@ -102,12 +102,12 @@ package manifest
 // byte with that value, anything else (\400..\999) is left as it is; no slice
 // expression can panic on such an argument.  UnescapeName applies it to
 // exactly the matches of that pattern in the name.
-//@ func unescapeSeq property C10
+//@ func unescapeSeq property C10,C17
 //@   requires matches(seq, `^\\([0-9]{3}|\\)$`)
 //@   ensures seq == "\\\\" ==> result == "\\"
 //@   ensures seq != "\\\\" && !(parseok(seq[1:], 8) && parseint(seq[1:], 8) < 256) ==> result == seq
 //@   ensures seq != "\\\\" && parseok(seq[1:], 8) && parseint(seq[1:], 8) < 256 ==> len(result) == 1
-//@ func UnescapeName property C10
+//@ func UnescapeName property C10,C17
 //@   calls Regexp.ReplaceAllStringFunc#1: requires $0 == s
 
 //@ lemma escapeSeqPattern property C10: regexliteral(escapeSeq) == `\\([0-9]{3}|\\)`
